@@ -20,7 +20,8 @@ EXPLANATION = (
     "order); lm = len(denominator) - 1; the kernel is called with (iter(seq), memory, zero, iterators...) in the "
     "order of its parameters. Bounded over schemas (orders <= 2 exhaustively in the thorough tier, plus gaps), "
     "unbounded over sample values and lengths. Not decided: memories shorter than the order, exact coefficient "
-    "types (values are pasted as text).")
+    "types (values are pasted as text)."
+    " Also: The coefficient classes of the folded kernels are completed by every literal the builder compares a coefficient with (a special case on another value gets its own kernels); every free name of a generated loop must be defined; C04.normalise / C04.memory / C04.memory-pad are decision tables over the kinds of constructor and memory arguments. ")
 
 UNDECIDED = ["filters of order > 2 beyond the sampled sparse shapes (same code path: loops over the term dicts)",
              "short memories (padding side)", "exact numeric types of pasted coefficients"]
